@@ -170,6 +170,7 @@ func init() {
 				ruleFootprint(r, "E.footprint", footSel("(*column.Collection).Query", "(*column.Collection).QueryAt", "(*column.Collection).Insert", "(*column.Collection).DeleteAt", "(*column.Txn).Insert", "(*column.Txn).QueryAt", "(*column.Txn).DeleteAt"), 4)
 			})
 			guard(r, func() { ruleCommitUpdates(r) }) // "applies every change it buffered": every buffer is visited
+			guard(r, func() { ruleReaderState(r) })   // rollback finds the offsets to release with a reader positioned by Seek: a stale position releases another row
 			guard(r, func() { ruleFreeBitNonZero(r) })
 		}})
 	register(&PropSpec{ID: "C03",
@@ -367,6 +368,7 @@ func init() {
 			guard(r, func() { ruleStorageArms(r) })
 			guard(r, func() { ruleL1(r, backfillExempt) })
 			guard(r, func() { ruleMergeQueued(r) })
+			guard(r, func() { ruleReaderState(r) }) // rollback finds the offsets to release with a reader positioned by Seek: a stale position releases another row
 			guard(r, func() { ruleRecordMerge(r) })
 			guard(r, func() { ruleMergeReentrant(r) })
 			guard(r, func() { ruleUnits(r, "C09.units", unitsText, 10, applyUnitFns("numeric", "string")) })
@@ -401,6 +403,7 @@ func init() {
 		NotDecided:  []string{"that findFreeIndex returns a clear bit (bit arithmetic over the fill words)", "count == popcount(fill) as a value"},
 		Assumptions: []string{assumeA3},
 		Run: func(r *Report) {
+			guard(r, func() { ruleReaderState(r) }) // rollback finds the offsets to release with a reader positioned by Seek: a stale position releases another row
 			guard(r, func() { ruleReserve(r) })
 			guard(r, func() { ruleL4(r) })
 			guard(r, func() { ruleMarkerArms(r) })
